@@ -106,7 +106,7 @@ func runC03Conc(r *mc.Report, e *Env) {
 	}
 	for si := range c03ConcScenarios {
 		sc := &c03ConcScenarios[si]
-		d := &mc.DFS{Bound: bound, Shard: e.Shard, Of: e.Of, ShardDepth: 1, Deadline: e.Deadline}
+		d := &mc.DFS{Bound: bound, Shard: e.Shard, Of: e.Of, ShardDepth: bound, Deadline: e.Deadline} // subtrees dealt out at the deepest level: those of the first deviations are far larger than the rest
 		var out string
 		outcomes := map[string]int{}
 		d.Body = func(c *mc.Ctx) { out = c03ConcRun(r, sc, c) }
